@@ -25,7 +25,7 @@ def prove(pid, rep, thorough_extra=True):
     """Steps 1-2 of the protocol. Returns dict of audited theorems; records broken ties."""
     info = {"extract": None, "theorems": {}}
     try:
-        info["extract"] = core.extract()
+        info["extract"] = core.extract_for(pid)
     except core.Broken as b:
         rep.broken = b
         return info
@@ -96,7 +96,7 @@ def walk_property(pid, rep, replay=None):
         pass
     n, plies = SIZES[rep.tier][pid]
     if getattr(rep, "broken", None) is not None:
-        n, plies = SIZES["thorough"][pid][0] // 4, SIZES["thorough"][pid][1]
+        n, plies = n * 3, plies  # enlarged search for a failing input when a tie is broken
     stats, kinds, cases = walks.run(pid, rep, n, plies)
     sample = cases[len(walks.load_corpus(pid))][:12] if cases else []
     proof_coverage(rep, info, {
@@ -132,7 +132,7 @@ def search_property(pid, rep, replay=None):
     if not build_impl(rep, profiles=profiles, engine=(pid == "C15")):
         proof_coverage(rep, info, {})
         return finish(rep, info)
-    tier = rep.tier if rep.broken is None else "thorough"
+    tier = rep.tier  # a broken tie enlarges only the cheap walk searches (bounded run time)
     if pid in ("C06", "C18"):
         stats, kinds, cases = searchchk.check_legality(rep, pid, SEARCH_SIZES[tier][pid], rep.seed)
         rule = ("histories of 1-5 searches sharing one table (same game, other games, deeper then shallower limits, dead and "
@@ -182,7 +182,7 @@ def text_property(pid, rep, replay=None):
     if not build_impl(rep, profiles=profiles):
         proof_coverage(rep, info, {})
         return finish(rep, info)
-    tier = rep.tier if rep.broken is None else "thorough"
+    tier = rep.tier  # a broken tie enlarges only the cheap walk searches (bounded run time)
     if pid == "C12":
         stats, kinds, cases = textchk.check_c12(rep, tier)
         rule = ("per sampled position: all 4096 from/to square pairs with and without promotion suffixes (first positions; a sample for "
@@ -219,7 +219,7 @@ def engine_property(pid, rep, replay=None):
     if not build_impl(rep, engine=True):
         proof_coverage(rep, info, {})
         return finish(rep, info)
-    tier = rep.tier if rep.broken is None else "thorough"
+    tier = rep.tier  # a broken tie enlarges only the cheap walk searches (bounded run time)
     if pid == "C13":
         stats, kinds, samples = sessionchk.check_c13(rep, tier)
         rule = ("`go` with clock/increment/movetime tuples around every breakpoint of the budget function (0, 149-151, 7499-7501, 2^53±1, 2^64-1, …) "
@@ -253,7 +253,7 @@ def c05_property(pid, rep, replay=None):
     if not build_impl(rep):
         proof_coverage(rep, info, {})
         return finish(rep, info)
-    tier = rep.tier if rep.broken is None else "thorough"
+    tier = rep.tier  # a broken tie enlarges only the cheap walk searches (bounded run time)
     stats, cases = walks.check_c05(rep, tier)
     proof_coverage(rep, info, {
         "evaluations": stats.get("positions_hashed", 0) + stats.get("single_feature_variants", 0),
